@@ -510,10 +510,11 @@ class ScriptDirectory:
 
             remaining_heads = filtered_heads
             for dest in dests:
-                if dest is not None and len(dests) > 1:
-                    # with several destinations, each one moves only the
-                    # current heads that share a lineage with it and that
-                    # were not already claimed by a previous destination
+                if dest is not None:
+                    # each destination moves only the current heads that
+                    # share a lineage with it (not merely with the branch
+                    # label it was named by) and that were not already
+                    # claimed by a previous destination
                     filtered_heads = list(
                         self.revision_map.filter_for_lineage(
                             remaining_heads,
